@@ -9,7 +9,8 @@ CONSTANTS K, MaxSrc, NSample
 
 Srcs == UNION {[1..n -> 1..K] : n \in 0..MaxSrc}
 Reruns(wr, nb) == IF wr = "cli"
-                  THEN <<[nbuf |-> (nb % 3) + 1, delivery |-> "file", sched |-> "natural"], [nbuf |-> 8, delivery |-> "pipe", sched |-> "natural"]>>
+                  THEN <<[nbuf |-> (nb % 3) + 1, delivery |-> "file", sched |-> "natural"], [nbuf |-> 8, delivery |-> "pipe", sched |-> "natural"],
+                         [nbuf |-> 2, delivery |-> "fifo", sched |-> "natural"]>>
                   ELSE <<[nbuf |-> (nb % 3) + 1, delivery |-> "file", sched |-> "natural"], [nbuf |-> 64, delivery |-> "pipe", sched |-> "natural"]>>
 IdScen == {[writer |-> wr, nbuf |-> nb, src |-> s, bs |-> 64, ctype |-> 0, hl |-> 64, meta |-> 0, delivery |-> "file", transport |-> "local",
             sched |-> "natural", reruns |-> Reruns(wr, nb)] : wr \in {"lib", "cli"}, nb \in {1, 2, 3}, s \in Srcs}
@@ -37,7 +38,7 @@ ClassScen == {LET lc == LenSeq[(i % Len(LenSeq)) + 1]
                content |-> RandomElement({"random", "constant", "zeros", "zeroruns", "repetitive"}),
                alg |-> RandomElement({0, 1, 2}), rel |-> RandomElement({"lt", "eq", "gt"}), bits |-> RandomElement({5, 9}),
                hl |-> RandomElement({4, 8, 16, 32, 64}), ctype |-> cp[1], clevel |-> cp[2], meta |-> RandomElement(0..4),
-               delivery |-> RandomElement({"file", "pipe"}), transport |-> RandomElement({"local", "http"}), sched |-> "natural", idx |-> i,
+               delivery |-> RandomElement({"file", "pipe", "fifo"}), transport |-> RandomElement({"local", "http"}), sched |-> "natural", idx |-> i,
                over_existing |-> RandomElement({"none", "none", "longer", "shorter", "none+tmplong", "longer+tmplong", "none+tmpshort"}),
                avg_off |-> RandomElement({"pow2", "pow2", "plus1", "max", "mid"}),
                reruns |-> IF lc = "gt1mib" THEN <<>> ELSE <<[nbuf |-> RandomElement({1, 2, 3, 8, 64}), delivery |-> RandomElement({"file", "pipe"}), sched |-> "natural"]>>]
